@@ -7,21 +7,21 @@ CLAIMED = {
     # id: (text, note, technique, design_ref)
     'C05': ("Contracts on the real validate_native/validate_string chains and enforcement points; every clause is a VC "
             "generated from the current source by symbolic execution of the function's AST and discharged by z3 for all "
-            "values and all facet customisations at once. DateTime / Date / Time validate_native proved with symbolic calendar fields against 13 bound configurations (ordering model of the time types); a complex argument with inherited occurrence constraints goes through all seven protocols.",
+            "values and all facet customisations at once. DateTime / Date / Time validate_native proved with symbolic calendar fields against 13 bound configurations (ordering model of the time types); a complex argument with inherited occurrence constraints goes through all seven protocols. HttpRpc(strict_arrays=True) is an eighth pipeline configuration, with a repeated complex member; math.isnan is modelled with its OverflowError for integers >= 2**1024.",
             "pyvc engine, z3; facets integer-valued; dispatch closed-world; see evidence.assumptions",
             "contract-based deductive verification: VCs from the Python AST of the live functions, z3/cvc5",
             "DESIGN.md section 4 C05"),
     'C13': ("Loop-invariant proof (z3, unbounded) of the bounded body reader for all limits, block sizes, declared lengths "
             "and stream behaviours; PEP 3333 obligations as ghost-trace VCs over every path of the real handle_rpc / "
             "handle_error / handle_wsdl_request / __finalize bodies with the user function, the client (abort) and the "
-            "request kind havocked. Also: a raising wsgi_close / method_context_closed listener does not make the context close twice under the server's mandatory close(); the constructor stores every max_content_length >= 0 and block_length > 0 unchanged (symbolic, 0 means 0).",
+            "request kind havocked. Also: a raising wsgi_close / method_context_closed listener does not make the context close twice under the server's mandatory close(); the constructor stores every max_content_length >= 0 and block_length > 0 unchanged (symbolic, 0 means 0). Redirects (HttpRedirect 301/302/303), oversize and non-numeric Content-Length as request kinds, MessagePack-RPC as a fifth family.",
             "wsgi.input.read(n) returns <= n bytes; WSGI server calls close(); listeners return; concrete one-method app",
             "contract-based deductive verification: inductive invariant + per-path ghost-trace VCs from the live AST, z3",
             "DESIGN.md section 4 C13"),
     'C14': ("Event-trace contract (specification automaton) checked on every symbolic path of the real request pipeline "
             "(WsgiApplication.__call__ and everything below it, interpreted from the working tree) with a fork at every "
             "havocked party: request kind x single failing listener (Fault / non-Fault, application/service/method level) "
-            "x user-function outcome, for seven protocol families. A second event manager on the same method is served like the first, and service / method managers see every event of the call from method_call on.",
+            "x user-function outcome, for seven protocol families. A second event manager on the same method is served like the first, and service / method managers see every event of the call from method_call on. The same contract is checked through a plain ServerBase driven like the package's message transports, for seven families, and for MessagePack-RPC over WSGI.",
             "listeners of exception/closed events return normally; one context per request; see evidence.assumptions",
             "contract-based verification: per-path ghost-trace VCs over the interpreted real pipeline (havocked callees fork)",
             "DESIGN.md section 4 C14"),
@@ -29,21 +29,21 @@ CLAIMED = {
             "fault code string and every fault class, for each output protocol; fault serialisers proved to carry code and "
             "message verbatim; funnel/identity/no-leak obligations as per-path VCs over the real process_request / "
             "handle_error / serialize bodies with the user function and listeners havocked (Fault, non-Fault of several "
-            "shapes), responses decoded by reference decoders. Bounded: 14 hostile message texts (markup, entities, CDATA, blanks, non-BMP, 3000 characters) x 6 codes arrive unchanged over all seven protocols.",
+            "shapes), responses decoded by reference decoders. Bounded: 14 hostile message texts (markup, entities, CDATA, blanks, non-BMP, 3000 characters) x 6 codes arrive unchanged over all seven protocols. Positional (complex_as=list/tuple) fault documents are decoded too; user code raises 11 kinds of exceptions incl. TypeError, a subclass of it, ValueError, KeyError, UnicodeDecodeError; MessagePack-RPC is an eighth family.",
             "z3 sequence theory for startswith/==; concrete representative faults in the pipeline part; traceback mode off",
             "contract-based deductive verification: VCs over z3 strings from the live AST + per-path trace VCs",
             "DESIGN.md section 4 C09"),
     'C11': ("Lookup contract of get_call_handles proved for an arbitrary (symbolic) requested name against a routing table "
             "with adversarially similar names (exact string equality => no near-miss match); per-operation contract of the "
             "routing-table insertion over all abstract pre-states; context generation; order independence and near-miss "
-            "requests through the real pipeline (bounded enumeration, labelled). Proved as well: the dict-document method request string is '{tns}' + the key taken whole (symbolic key), and match_pattern selects a literal address pattern iff path and verb are exactly the registered ones (symbolic path, regex model incl. '$' before a final newline).",
+            "requests through the real pipeline (bounded enumeration, labelled). Proved as well: the dict-document method request string is '{tns}' + the key taken whole (symbolic key), and match_pattern selects a literal address pattern iff path and verb are exactly the registered ones (symbolic path, regex model incl. '$' before a final newline). Bounded additions: two same-named services from one factory are rejected; a header block quoting another SOAP Body does not name the method.",
             "z3 sequence theory for '{%s}%s' formatting and dict lookup by equality; concrete service sets",
             "contract-based deductive verification: VCs over z3 strings from the live AST; case analysis of pre-states",
             "DESIGN.md section 4 C11"),
     'C03': ("Unbounded proof of the sparse-to-contiguous index inserter _s2cmi over symbolic maps (rank-map invariant, "
             "inductive invariant over the set of visited keys, quantified VCs discharged by z3 with a Skolem inverse); the "
             "surrounding simple_dict_to_object / object_to_simple_dict round trip, the query-string parser and the "
-            "primitive response are bounded stand-ins (stated bounds, listed separately, not counted as proved). Declared HTTP response headers (14 integer / text / date-time triples incl. zone conversions across day, month and year boundaries) carry the HTTP-date of the instant.",
+            "primitive response are bounded stand-ins (stated bounds, listed separately, not counted as proved). Declared HTTP response headers (14 integer / text / date-time triples incl. zone conversions across day, month and year boundaries) carry the HTTP-date of the instant. Also: members renamed with sub_name two and three levels down the flat keys; text types with a declared encoding as primitive results, with Content-Length.",
             "dict iteration visits each key once; bounded parts: see evidence.coverage.bounded",
             "contract-based deductive verification (loop invariant over z3 arrays) + labelled bounded stand-ins",
             "DESIGN.md section 4 C03"),
@@ -51,7 +51,7 @@ CLAIMED = {
             "__init__ proved to store every parser flag unchanged (symbolic flags); every path of every "
             "create_in_document proved to hand each parse call a parser built in that call from exactly "
             "self.parser_kwargs (callee models of lxml's factory and parse entry points); no store to parser_kwargs on the "
-            "request path (frame hook). lxml honouring the flags is assumed and audited by a canary corpus (bounded). The flow obligation covers the HTTP branches (text/xml, soap+xml, multipart/related, missing Content-Type, wrong verb); the canary corpus includes a 2000-deep nesting bomb, plain and as root part of a multipart request.",
+            "request path (frame hook). lxml honouring the flags is assumed and audited by a canary corpus (bounded). The flow obligation covers the HTTP branches (text/xml, soap+xml, multipart/related, missing Content-Type, wrong verb); the canary corpus includes a 2000-deep nesting bomb, plain and as root part of a multipart request. Frame and audit obligations run under every validator setting (None, soft, lxml) so that set_app is covered; DTD attribute defaults are in the corpus.",
             "lxml/libxml2 honour the parser flags (audited, not proved); bounded time/memory clause not decided",
             "contract-based deductive verification: configuration-flow VCs with callee models + frame hook",
             "DESIGN.md section 4 C17"),
@@ -61,7 +61,7 @@ CLAIMED = {
             "and fed to the real decoder (regexes matched token-wise, int()/Decimal() of tokens as linear arithmetic); "
             "lexical-coverage obligations run the decoder on generated literals of the XSD sub-language. The float "
             "sub-lemma is settled by exhaustive enumeration (finite lemma, listed separately). Decimal, Double, Boolean, "
-            "ByteArray, Uuid, Unicode are bounded stand-ins over representative values.",
+            "ByteArray, Uuid, Unicode are bounded stand-ins over representative values. xs:time literals with zone designators are proved readable (token strings); blank-only and markup-like texts survive as element content (bounded).",
             "CPython int/str/isoformat/datetime contracts (pyvc/timemodel.py); token-walk = leftmost-priority matching "
             "for the fixed-structure patterns; open known findings listed in known_findings.jsonl",
             "contract-based deductive verification: token-string VCs in linear integer arithmetic (z3) from the live AST",
@@ -70,7 +70,7 @@ CLAIMED = {
             "matching its pattern with unconstrained digit fields returns or raises a Client-family Fault -- stdlib calls "
             "are modelled with their documented raise-sets and every raising fork must be converted by the code around "
             "it. Structure level (bounded, labelled): the real pipeline on every value kind at every argument position, "
-            "25 XML mutations x 3 validators, every prefix truncation, byte-level and transport-level hostile inputs. Also: NaN / sNaN / infinities, seven xsi:type malformations and 14 multipart/related (SwA) request forms.",
+            "25 XML mutations x 3 validators, every prefix truncation, byte-level and transport-level hostile inputs. Also: NaN / sNaN / infinities, seven xsi:type malformations and 14 multipart/related (SwA) request forms. Truncations run under four ways of announcing the encoding; MessagePack-RPC and a plain ServerBase (no HTTP) are covered as well.",
             "assumed raise-sets of int/float/Decimal/date/time/b64decode/unhexlify/UUID/strptime and of the "
             "lxml/json/yaml/msgpack parsers; regex match outcome forked where the pattern is not translated",
             "contract-based deductive verification: exceptional postconditions with may-raise callee models + bounded "
@@ -81,7 +81,7 @@ CLAIMED = {
             "with a class derived from the declared one, or ValidationError; scalar kind handlers (_ret_number, _ret_bool) "
             "proved over the complete partition of value kinds with a symbolic integer. Bounded (labelled): every value "
             "kind at every argument position for JSON/YAML/MessagePack, xsi:type retagging of 12 positions x 15 type names "
-            "x 3 validators through the real pipeline, xsi:nil values, wrapper-key substitution. 126 odd literals of 12 primitive types over XML, SOAP and HttpRpc deliver a value of exactly the native type or nothing; the symbolic decoder obligations (C10 leaf) carry the same type clause for an arbitrary string.",
+            "x 3 validators through the real pipeline, xsi:nil values, wrapper-key substitution. 126 odd literals of 12 primitive types over XML, SOAP and HttpRpc deliver a value of exactly the native type or nothing; the symbolic decoder obligations (C10 leaf) carry the same type clause for an arbitrary string. MessagePack-RPC is covered as a fourth dict-document family.",
             "closed world for protocol handler tables; one verification interface; bounded parts listed in the evidence",
             "contract-based verification: case analysis over live class-hierarchy facts + labelled bounded enumeration",
             "DESIGN.md section 4 C04"),
@@ -90,7 +90,7 @@ CLAIMED = {
             "objects). Frame and evolution contracts over bounded histories (labelled): every sequence of one and two "
             "operations from a 15-operation alphabet (customize, child_attrs, child_attrs_all, variants of variants, Array, "
             "Mandatory, subclassing, append/insert_field incl. pending child attributes) over a 13-model pool, every model "
-            "snapshotted after every step against an expectation oracle written from the statement. Explicit field positions (order=...) give the documented order for the class, its variants and subclasses under every set iteration order (interpreted metaclass, order adversary; hash-seed replay).",
+            "snapshotted after every step against an expectation oracle written from the statement. Explicit field positions (order=...) give the documented order for the class, its variants and subclasses under every set iteration order (interpreted metaclass, order adversary; hash-seed replay). Mixin parents keep their declaration order; column options (pk, server_default, index) are part of the model pool.",
             "histories bounded to length 2 (each operation is checked to preserve every other model, which extends to any "
             "sequence by induction only for the observed attributes); registries _variants/_subclasses whitelisted",
             "contract-based deductive verification of result contracts (z3) + labelled bounded history enumeration",
@@ -99,7 +99,7 @@ CLAIMED = {
             "arguments and every positional/keyword call form (the user function receives exactly the given values, incl. "
             "falsy ones; the call returns what the function returned). Result unwrapping checked relationally (bounded, "
             "labelled): 22 calls over 12 signatures and all body styles compared with the same call over the JsonDocument "
-            "wire path decoded by the documented conventions; auxiliary-method interplay. An Ignored return is delivered to the direct caller and is empty on the wire for wrapped / out_bare / bare styles x primitive / complex return types over JsonDocument, XmlDocument and Soap11.",
+            "wire path decoded by the documented conventions; auxiliary-method interplay. An Ignored return is delivered to the direct caller and is empty on the wire for wrapped / out_bare / bare styles x primitive / complex return types over JsonDocument, XmlDocument and Soap11. Faults with empty detail or empty string, from void and two-valued methods, are raised by NullServer as they are sent on the wire; Ignored with two return values.",
             "wire side compared through JsonDocument only (XmlDocument/Soap11 wire decoding is C01's)",
             "contract-based deductive verification of the packing loop (z3) + labelled bounded relational comparison",
             "DESIGN.md section 4 C18"),
@@ -108,7 +108,7 @@ CLAIMED = {
             "round trips (bounded, labelled): subclass instances returned where the base is declared, single and in a "
             "mixed array, polymorphic on/off, through the real pipeline of XmlDocument/Soap11/Soap12 and of "
             "JSON/YAML/MessagePack with wrapper keys: ancestors' fields first, type marker present and resolvable inside "
-            "the transmitted document, the transmitted value sent back reconstructs the same subclass with equal fields.",
+            "the transmitted document, the transmitted value sent back reconstructs the same subclass with equal fields. The tree has a member renamed with sub_name in the root, and the signatures also declare a customised variant of a non-root class and Array(non-root).",
             "one class tree (subclasses in the namespace of their base); bounded parts listed in the evidence",
             "contract-based verification: case analysis over live class-hierarchy facts + labelled bounded round trips",
             "DESIGN.md section 4 C16"),
@@ -119,7 +119,7 @@ CLAIMED = {
             "(labelled): requests built by an independent reference encoder for 6 generated signatures with boundary "
             "values through the real XmlDocument/Soap11/Soap12 pipeline x {None, soft, lxml} (user function invoked once "
             "with equal values; response read by an independent reference decoder denotes the returned value), SOAP "
-            "headers, and the Spyne client looped back onto the server. Also bounded: 5 document encodings x declaration / charset parameter combinations deliver the exact text.",
+            "headers, and the Spyne client looped back onto the server. Also bounded: 5 document encodings x declaration / charset parameter combinations deliver the exact text. Round 3 additions (bounded): three declared SOAP header classes in every subset and order; members renamed with sub_name in a base class and in a mixin-using subclass; values produced by the function itself (several byte chunks) checked by a strict reference decoder.",
             "lxml keeps order/text/attributes; the schema-driven third-party client clause is not decidable here (external "
             "program) -- C06's schema-truthfulness obligations are the in-family substitute",
             "contract-based deductive verification of occurrence lemmas (z3) + labelled bounded differential round trips",
@@ -130,7 +130,7 @@ CLAIMED = {
             "values (2**70, -2**63, 30-digit decimals, non-BMP text, empty containers) through the real pipeline of "
             "JSON/YAML/MessagePack x ignore_wrappers x complex_as {dict, list} x validator {None, soft} (MessagePack with "
             "str and bytes keys); the function is invoked once with equal values and the response read by an independent "
-            "reference decoder denotes the returned values. The polymorphic setting (subclass instances under a base, a customised variant or Array(base)) is checked with C16's marker round trips.",
+            "reference decoder denotes the returned values. The polymorphic setting (subclass instances under a base, a customised variant or Array(base)) is checked with C16's marker round trips. Also: produced values (multi-chunk bytes), renamed members; open finding for members that declare both sub_name and sub_ns.",
             "json/yaml/msgpack wire (de)serialisers are lossless on their own value model; positional form for fully "
             "populated objects only (as the property states)",
             "contract-based deductive verification of integer handlers (z3) + labelled bounded differential round trips",
@@ -144,7 +144,7 @@ CLAIMED = {
             "over the WSDL of generated applications (custom operation/message names, one and several in/out headers from "
             "foreign namespaces, declared faults, port types, five namespaces, inheritance across namespaces, enumerations, "
             "all body styles). Foreign client (bounded, labelled): zeep generated from ?wsdl alone builds one request per "
-            "method, the interpreted real server accepts it, zeep decodes bodies, output headers and a declared fault.",
+            "method, the interpreted real server accepts it, zeep decodes bodies, output headers and a declared fault. Repeated builds (same builder, second builder, builder after the validation schema) give identical bytes; an application that binds the XSD namespace to another prefix is among the generated ones.",
             "generated applications are a bounded program space; zeep is assumed to implement WSDL 1.1/SOAP 1.1",
             "contract-based deductive verification of the prefix allocator (z3 strings) + order-adversary execution of the "
             "real builders + labelled bounded reference-resolver / foreign-client checks",
@@ -158,7 +158,7 @@ CLAIMED = {
             "boundary values (C01's signatures, a 37-member facet type with enumerations on every primitive, binary "
             "encodings, choice group, cross-namespace inheritance, required attribute) validates against the generated "
             "schema; lxml and soft validation agree with each other and with an XSD reference predicate on 140 boundary "
-            "probes x XmlDocument/Soap11/Soap12.",
+            "probes x XmlDocument/Soap11/Soap12. Also bounded: schema evolution (insert_field / append_field on a class that already has variants), polymorphic responses over a 4-level hierarchy, lexical-form verdicts for 126 literals; open findings: sub_ns members are not published in their namespace, subclasses in a foreign namespace are not published, 24 lexical leniencies of soft validation, Decimal exponent notation.",
             "libxml2's XSD facet semantics assumed (audited by the probes); totalDigits/fractionDigits and use=required are "
             "published but have no soft-validation code (not 'implemented by both'); open known finding: Decimal exponent "
             "notation",
@@ -175,7 +175,7 @@ CLAIMED = {
             "interference (bounded, labelled): cold vs warm instances; the interpreter as scheduler suspends a request "
             "after each of its shared writes and runs a complete other request (preemption bound 1); a requester preempted "
             "right before the WSDL build lock while another builds -- one build, same complete bytes for every requester, "
-            "lock released after a failing build.",
+            "lock released after a failing build. G5: an entry stored more than once with different values while a lock is held is not read outside the lock (dict item reads are observed); every event manager of the monitored application has listeners.",
             "not covered: arbitrary interleavings at bytecode granularity, more than one preemption, real parallelism inside "
             "native code; single dict/list operations assumed atomic (GIL); open known finding: lxml error_log shared",
             "contract-based verification of a sharing discipline (frame / publication / lock-state rules checked by store, "
